@@ -25,6 +25,7 @@ pub mod common;
 pub mod conway;
 pub mod params;
 pub mod shelley_ma;
+pub mod synth;
 pub mod txparts;
 
 use pallas_codec::minicbor;
